@@ -176,6 +176,7 @@ static void run(int tier, int prog) {
   h_maybe_custom_steal(prog, cur->W);
   h_mutex_init(&m, prog & 1); h_cond_init(&c0, (prog >> 1) & 1); h_cond_init(&c1, prog & 1);
   static h_sentinel_t sent; h_sentinel_start(&sent, 5, prog);
+  static h_bystander_t byst; h_bystander_start(&byst, prog, cur->W);
   myth_thread_t th[8]; int nt = 0;
   switch (cur->fam) {
   case F_BB: {
@@ -238,6 +239,7 @@ static void run(int tier, int prog) {
   MV_CHECK(m.state == 0, "mutex state %ld at the end", (long)m.state);
   MV_CHECK(c0.sleep_q->head == 0 && c1.sleep_q->head == 0, "a thread is still queued on a condition variable at the end");
   mv_obs("fam=%d consumed=%d sum=%d turn=%d", cur->fam, consumed_n, consumed_sum, turn);
+  h_bystander_finish(&byst);
   h_sentinel_finish(&sent);
   h_cond_epilogue(&c0, (prog >> 1) & 1); h_cond_epilogue(&c1, prog & 1); h_mutex_epilogue(&m, prog & 1);
   mv_finish();
